@@ -32,11 +32,46 @@ def run_property(prop: str, tier: str, root: str, overlay=None, quiet=False) -> 
     rep.stats["functions_parsed"] = len(model.all_functions)
     rep.stats["classes_parsed"] = len(model.all_classes)
     mod = importlib.import_module(f"sa.props.{prop}")
+    _install_signatures(model)
     try:
         mod.check(model, rep, tier)
     except AnalysisError as e:
         rep.error(str(e))
     return rep
+
+
+def _install_signatures(model: Model) -> None:
+    """Positional parameter lists of the repository's callables, by simple name, where that name has one parameter list package-wide (sa/match.py compares
+    calls of such callees as parameter -> argument bindings, so positional and keyword spellings of one call are the same construct)."""
+    from sa import match as _m
+    table: dict[str, list] = {}
+    clash = set()
+    for f in model.all_functions:
+        if f.is_overload or f.parent is not None:
+            continue
+        a = f.node.args
+        if a.vararg is not None:
+            clash.add(f.name)
+            continue
+        ps = [x.arg for x in list(a.posonlyargs) + list(a.args)]
+        if f.cls is not None and not f.is_staticmethod and ps:
+            ps = ps[1:]
+        name = f.name
+        if name == "__init__" and f.cls is not None:
+            name = f.cls.name
+        if name.startswith("__") and name.endswith("__"):
+            continue
+        table.setdefault(name, [])
+        if ps not in table[name]:
+            table[name].append(ps)
+    for nm in clash:
+        table.pop(nm, None)
+    # module-level functions are also reachable as `<module>.<name>`: that spelling is unambiguous even when the bare name is not
+    for f in model.all_functions:
+        if f.cls is None and f.parent is None and not f.is_overload and f.node.args.vararg is None:
+            a = f.node.args
+            table[f.module.name.rsplit(".", 1)[-1] + "." + f.name] = [[x.arg for x in list(a.posonlyargs) + list(a.args)]]
+    _m.set_signatures(table)
 
 
 _ANCHORED = None
